@@ -182,6 +182,9 @@ type Chain struct {
 	divergences  []string
 	Absent       map[common.ValidatorIndex]bool
 	SlotSteps    []HonestSlots
+	Eth1HalfPattern bool
+	halfY        common.Eth1Data
+	halfPeriod   int
 	justified    map[common.Epoch]bool
 	modeOf       map[common.Epoch]string
 	SpareShare   int  // percent of the genesis validators that operations must leave healthy (default 40)
